@@ -50,15 +50,16 @@ func New(config ...Config) fiber.Handler {
 			_ = c.Status(res.StatusCode)
 
 			for header, vals := range res.Headers {
+				// The stored values replace whatever earlier middleware set for this header
+				c.RequestCtx().Response.Header.Del(header)
 				for _, val := range vals {
 					c.RequestCtx().Response.Header.Add(header, val)
 				}
 			}
 
-			if len(res.Body) != 0 {
-				if err := c.Send(res.Body); err != nil {
-					return true, err
-				}
+			// Always send the stored body, an empty one replaces an earlier body too
+			if err := c.Send(res.Body); err != nil {
+				return true, err
 			}
 
 			_ = c.Locals(localsKeyIsFromCache, true)
